@@ -25,8 +25,8 @@ Proof.
   - cbn [write_all] in H. cbn [map distinct_paths] in Hd.
     apply Bool.andb_true_iff in Hd. destruct Hd as [Hn Hd].
     apply Bool.negb_true_iff in Hn. apply existsb_path_false in Hn.
-    destruct (mkdir_p (em_dirs m) es) as [es1|] eqn:H1; [|discriminate H].
-    destruct (write_at (em_dirs m) (out_file o m) (entity_content m) es1) as [es2|] eqn:H2; [|discriminate H].
+    destruct (mkdir_p (out_dirs m) es) as [es1|] eqn:H1; [|discriminate H].
+    destruct (write_at (out_dirs m) (out_file o m) (entity_content m) es1) as [es2|] eqn:H2; [|discriminate H].
     destruct (IH es2 es' H Hd) as [IHa IHb].
     assert (Hstep : forall p, file_at p es2 = if path_eqb p (out_path o m) then Some (entity_content m) else file_at p es).
     { intros p. rewrite (file_at_write_at _ _ _ _ _ H2), (file_at_mkdir_p _ _ _ H1). reflexivity. }
@@ -46,12 +46,12 @@ Proof.
   intros o. induction ms as [|m r IH]; intros es es' H p c Hf.
   - cbn in H. inversion H; subst. right. exact Hf.
   - cbn [write_all] in H.
-    destruct (mkdir_p (em_dirs m) es) as [es1|] eqn:H1; [|discriminate H].
-    destruct (write_at (em_dirs m) (out_file o m) (entity_content m) es1) as [es2|] eqn:H2; [|discriminate H].
+    destruct (mkdir_p (out_dirs m) es) as [es1|] eqn:H1; [|discriminate H].
+    destruct (write_at (out_dirs m) (out_file o m) (entity_content m) es1) as [es2|] eqn:H2; [|discriminate H].
     destruct (IH es2 es' H p c Hf) as [[m' [Hin Hp]]|Hf2].
     + left. exists m'. split; [right; exact Hin|exact Hp].
     + rewrite (file_at_write_at _ _ _ _ _ H2), (file_at_mkdir_p _ _ _ H1) in Hf2.
-      destruct (path_eqb p (em_dirs m ++ [out_file o m])) eqn:E.
+      destruct (path_eqb p (out_dirs m ++ [out_file o m])) eqn:E.
       * apply path_eqb_true in E. left. exists m. split; [left; reflexivity|exact E].
       * right. exact Hf2.
 Qed.
@@ -64,8 +64,8 @@ Proof.
   intros o. induction ms as [|m r IH]; intros es es' H.
   - cbn in H. inversion H; subst. split; [intros m []|intros p Hp; exact Hp].
   - cbn [write_all] in H.
-    destruct (mkdir_p (em_dirs m) es) as [es1|] eqn:H1; [|discriminate H].
-    destruct (write_at (em_dirs m) (out_file o m) (entity_content m) es1) as [es2|] eqn:H2; [|discriminate H].
+    destruct (mkdir_p (out_dirs m) es) as [es1|] eqn:H1; [|discriminate H].
+    destruct (write_at (out_dirs m) (out_file o m) (entity_content m) es1) as [es2|] eqn:H2; [|discriminate H].
     destruct (IH es2 es' H) as [IHa IHb].
     assert (Hstep : forall p, file_at p es2 = if path_eqb p (out_path o m) then Some (entity_content m) else file_at p es).
     { intros p. rewrite (file_at_write_at _ _ _ _ _ H2), (file_at_mkdir_p _ _ _ H1). reflexivity. }
@@ -199,11 +199,14 @@ Qed.
 (* ------------------------------------------------------------------ the theorems *)
 Lemma export_unfold : forall o ms t r,
   export o ms t = Ok r ->
-  exists w, write_all o ms (clean_dir (orm_ext o) t) = Some w
+  no_collision o ms = true
+  /\ exists w, write_all o ms (clean_dir (orm_ext o) t) = Some w
             /\ match o with SeaOrm => chain_all ms w = Some r | _ => r = w end.
 Proof.
   intros o ms t r H. unfold export in H.
   destruct (negb (forallb normalize_ok ms)); [discriminate H|].
+  destruct (no_collision o ms) eqn:Hnc; cbn [negb] in H; [|discriminate H].
+  split; [reflexivity|].
   destruct (negb (forallb em_render_ok ms)); [discriminate H|].
   destruct (write_all o ms (clean_dir (orm_ext o) t)) as [w|]; [|discriminate H].
   exists w. split; [reflexivity|].
@@ -220,19 +223,37 @@ Proof.
   rewrite He in H2. discriminate H2.
 Qed.
 
-(* every model has its entity file, holding exactly its rendering *)
+(* since fix 18ab122 a successful export means there was no collision: every model has its entity file, holding
+   exactly its rendering, at the mirrored (sanitised) path *)
 Theorem export_entities_exact : forall o ms t r,
-  no_collision o ms = true -> export o ms t = Ok r ->
-  forall m, In m ms -> file_at (out_path o m) r = Some (entity_content m).
+  export o ms t = Ok r ->
+  no_collision o ms = true
+  /\ forall m, In m ms -> file_at (out_path o m) r = Some (entity_content m).
 Proof.
-  intros o ms t r Hnc H m Hin.
+  intros o ms t r H.
+  destruct (export_unfold _ _ _ _ H) as [Hnc [w [Hw Hr]]].
+  split; [exact Hnc|]. intros m Hin.
   destruct (no_collision_parts _ _ Hnc) as [Hd Hmod].
-  destruct (export_unfold _ _ _ _ H) as [w [Hw Hr]].
   destruct (write_all_spec _ _ _ _ Hw Hd) as [Hent _].
   destruct o; [|subst r; apply Hent; exact Hin|subst r; apply Hent; exact Hin].
   destruct (chain_all_facts _ _ _ Hr) as [C1 _].
   rewrite C1; [apply Hent; exact Hin|].
   unfold out_path. rewrite last_last. apply Hmod. exact Hin.
+Qed.
+
+(* the collision itself is an explicit refusal, decided before the directory is cleaned or written
+   (the error carries no tree: nothing has been touched; K-tree checks tree-before = tree-after on it) *)
+Theorem export_collision_refused : forall o ms t,
+  forallb normalize_ok ms = true ->
+  (no_collision o ms = false <-> export o ms t = Err XCollision).
+Proof.
+  intros o ms t Hn. unfold export. rewrite Hn. cbn [negb].
+  destruct (no_collision o ms); cbn [negb].
+  - split; [intros H; discriminate H|].
+    destruct (negb (forallb em_render_ok ms)); [intros H; discriminate H|].
+    destruct (write_all o ms (clean_dir (orm_ext o) t)) as [w|]; [|intros H; discriminate H].
+    destruct o; [destruct (chain_all ms w)|..]; intros H; discriminate H.
+  - split; reflexivity.
 Qed.
 
 (* nothing else in the ORM's language is left: no residue of earlier exports *)
@@ -242,7 +263,7 @@ Theorem export_no_residue : forall o ms t r,
     (exists m, In m ms /\ p = out_path o m) \/ (o = SeaOrm /\ last p "" = "mod.rs").
 Proof.
   intros o ms t r H p c Hp Hf.
-  destruct (export_unfold _ _ _ _ H) as [w [Hw Hr]].
+  destruct (export_unfold _ _ _ _ H) as [_ [w [Hw Hr]]].
   assert (Hwonly : forall c', file_at p w = Some c' -> exists m, In m ms /\ p = out_path o m).
   { intros c' Hc. destruct (write_all_only _ _ _ _ Hw p c' Hc) as [Hm|Hcl]; [exact Hm|].
     rewrite (clean_dir_no_ext _ _ _ Hp) in Hcl. discriminate Hcl. }
@@ -251,65 +272,82 @@ Proof.
   destruct (C3 p c Hf) as [Hl|Hf2]; [right; split; [reflexivity|exact Hl]|left; eapply Hwonly; exact Hf2].
 Qed.
 
-(* SeaORM: every entity whose module path is the path it was written to is reachable from the root mod.rs *)
+Lemma filter_all : forall A (f : A -> bool) l, forallb f l = true -> filter f l = l.
+Proof.
+  induction l as [|x r IH]; intros H; [reflexivity|]. cbn [forallb] in H. apply Bool.andb_true_iff in H. destruct H as [Hx Hr].
+  cbn [filter]. rewrite Hx, (IH Hr). reflexivity.
+Qed.
+
+Lemma sanitize_nonempty : forall s, nonempty_name s = true -> nonempty_name (sanitize_filename s) = true.
+Proof. intros [|c r] H; [discriminate H|reflexivity]. Qed.
+
+Lemma chain_comps_named : forall m,
+  path_names_nonempty m = true -> chain_comps m = out_dirs m ++ [out_stem (em_file m)].
+Proof.
+  intros m H. unfold path_names_nonempty in H. apply Bool.andb_true_iff in H. destruct H as [Hd Hs].
+  unfold chain_comps. apply filter_all. rewrite forallb_app. apply Bool.andb_true_iff. split.
+  - unfold out_dirs. rewrite forallb_forall in Hd. apply forallb_forall. intros x Hx.
+    apply in_map_iff in Hx. destruct Hx as [y [<- Hy]]. apply sanitize_nonempty, Hd, Hy.
+  - cbn [forallb]. rewrite Hs. reflexivity.
+Qed.
+
+(* SeaORM, since fix 350766d: every entity is reachable from the root mod.rs (for every model whose path has no empty
+   component; chain and entity path are now the same function of the model path) *)
 Theorem mod_chain_reaches_all : forall ms t r,
   export SeaOrm ms t = Ok r ->
-  forall m, In m ms -> chain_names_ok m = true -> entity_reachable m r = true.
+  forall m, In m ms -> path_names_nonempty m = true -> entity_reachable m r = true.
 Proof.
   intros ms t r H m Hin Hok.
-  destruct (export_unfold _ _ _ _ H) as [w [Hw Hr]]. cbn in Hr.
+  destruct (export_unfold _ _ _ _ H) as [_ [w [Hw Hr]]]. cbn in Hr.
   destruct (chain_all_facts _ _ _ Hr) as [_ [C2 [_ [C4 _]]]].
   destruct (write_all_exists _ _ _ _ Hw) as [We _].
   unfold entity_reachable. apply Bool.andb_true_iff. split.
   - specialize (C2 _ (We m Hin)). destruct (file_at (out_path SeaOrm m) r); [reflexivity|contradiction].
-  - unfold chain_names_ok in Hok.
-    destruct (list_eq_dec string_dec (chain_comps m) (em_dirs m ++ [out_stem (em_file m)])) as [E|]; [|discriminate Hok].
-    rewrite <- E. apply reachable_of_decls. intros pre c post Hc. cbn [app]. apply (C4 m Hin pre c post Hc).
+  - rewrite <- (chain_comps_named m Hok). apply reachable_of_decls. intros pre c post Hc. cbn [app]. apply (C4 m Hin pre c post Hc).
 Qed.
 
-(* ------------------------------------------------------------------ refutations (closed by computation) *)
+(* ------------------------------------------------------------------ the former refutation witnesses (closed by computation) *)
 Definition tbl (n : string) : table_def :=
   mkTable n None [mkCol "id" (TSimple Integer) false None None (Some (PKBool true)) None None None] [].
 
-(* `a b.json` and `a_b.json` have one output path: one entity is lost *)
-Theorem export_collision_refuted :
-  exists ms r,
-    export SeaOrm ms [] = Ok r /\ List.length ms = 2%nat /\ no_collision SeaOrm ms = false
-    /\ flat r = [(["a_b.rs"], KFile [LEntity "second"]); (["mod.rs"], KFile [LDecl "a_b"])].
+(* `a b.json` and `a_b.json` have one output path: refused, for every ORM and every starting tree *)
+Theorem export_collision_refused_witness : forall o t,
+  export o [mkEModel [] "a b.json" (tbl "first") true; mkEModel [] "a_b.json" (tbl "second") true] t = Err XCollision.
 Proof.
-  exists [mkEModel [] "a b.json" (tbl "first") true; mkEModel [] "a_b.json" (tbl "second") true]. eexists.
-  split; [vm_compute; reflexivity|]. repeat split; vm_compute; reflexivity.
+  intros o t. apply export_collision_refused; [reflexivity|]. destruct o; vm_compute; reflexivity.
 Qed.
 
-(* a model file called mod.json: its entity is written to mod.rs, and the chain then appends to that file *)
-Theorem export_mod_stem_refuted :
-  exists ms r,
-    export SeaOrm ms [] = Ok r /\ no_collision SeaOrm ms = false
-    /\ file_at ["mod.rs"] r = Some [LEntity "mod"; LDecl "mod"; LDecl "user"].
+(* a model file called mod.json would be written over the module index: refused (SeaORM); fine for the Python ORMs *)
+Theorem export_mod_stem_refused_witness :
+  (forall t, export SeaOrm [mkEModel [] "mod.json" (tbl "mod") true; mkEModel [] "user.json" (tbl "user") true] t = Err XCollision)
+  /\ exists r, export SqlAlchemy [mkEModel [] "mod.json" (tbl "mod") true; mkEModel [] "user.json" (tbl "user") true] [] = Ok r
+               /\ flat r = [(["mod.py"], KFile [LEntity "mod"]); (["user.py"], KFile [LEntity "user"])].
 Proof.
-  exists [mkEModel [] "mod.json" (tbl "mod") true; mkEModel [] "user.json" (tbl "user") true]. eexists.
-  split; [vm_compute; reflexivity|]. split; vm_compute; reflexivity.
+  split.
+  - intros t. apply export_collision_refused; [reflexivity|]. vm_compute. reflexivity.
+  - eexists. split; vm_compute; reflexivity.
 Qed.
 
-(* a '.' inside the stem: the entity goes to a_b.rs, mod.rs says `pub mod a;` *)
-Theorem mod_chain_dotted_stem_refuted :
+(* a '.' inside the stem: entity a_b.rs, declared as `pub mod a_b;` *)
+Theorem mod_chain_dotted_stem_reached :
   exists m r,
-    export SeaOrm [m] [] = Ok r /\ no_collision SeaOrm [m] = true /\ chain_names_ok m = false
-    /\ entity_reachable m r = false
-    /\ flat r = [(["a_b.rs"], KFile [LEntity "ab"]); (["mod.rs"], KFile [LDecl "a"])].
+    export SeaOrm [m] [] = Ok r /\ em_file m = "a.b.json"
+    /\ entity_reachable m r = true
+    /\ flat r = [(["a_b.rs"], KFile [LEntity "ab"]); (["mod.rs"], KFile [LDecl "a_b"])].
 Proof.
   exists (mkEModel [] "a.b.json" (tbl "ab") true). eexists.
   split; [vm_compute; reflexivity|]. repeat split; vm_compute; reflexivity.
 Qed.
 
-(* a directory name that sanitize_filename changes: the entity is in `my dir`, the chain goes through `my_dir` *)
-Theorem mod_chain_spaced_dir_refuted :
+(* a directory name that sanitize_filename changes: entity and chain both use `my_dir` *)
+Theorem mod_chain_spaced_dir_reached :
   exists m r,
-    export SeaOrm [m] [] = Ok r /\ no_collision SeaOrm [m] = true /\ chain_names_ok m = false
-    /\ entity_reachable m r = false
-    /\ file_at ["my dir"; "x.rs"] r = Some [LEntity "x"]
+    export SeaOrm [m] [] = Ok r /\ em_dirs m = ["my dir"]
+    /\ entity_reachable m r = true
+    /\ file_at ["my_dir"; "x.rs"] r = Some [LEntity "x"]
     /\ file_at ["my_dir"; "mod.rs"] r = Some [LDecl "x"]
-    /\ file_at ["mod.rs"] r = Some [LDecl "my_dir"].
+    /\ file_at ["mod.rs"] r = Some [LDecl "my_dir"]
+    /\ lookup ["my dir"] r = None.
 Proof.
   exists (mkEModel ["my dir"] "x.json" (tbl "x") true). eexists.
   split; [vm_compute; reflexivity|]. repeat split; vm_compute; reflexivity.
